@@ -32,6 +32,9 @@ type xShape struct {
 	KV   bool   // runtime type ObjectValue (keyed literal): no array methods, no append
 	List bool   // positional keys only (spread is defined)
 	Lit  bool   // Expr is a constant expression (may initialise a constant / a default value)
+	// scalar-payload shape (string / mixed elements): only the mutations that name it apply (the full
+	// mutation × element-kind product along single-edge routes is payload.go's)
+	Payload bool
 }
 
 var xShapes = []xShape{
@@ -39,6 +42,12 @@ var xShapes = []xShape{
 	{Name: "keyed", Pre: "$t = [3, 1]; $t['k0'] = 2;", Expr: "$t"},
 	{Name: "kv", Expr: "['k0' => 3, 'b' => 1]", KV: true, Lit: true},
 	{Name: "nest", Expr: "[[1, 2], 3, [4]]", List: true, Lit: true},
+	// elements whose value object is shared by every copy and must never be mutated in place
+	{Name: "strlist", Expr: "['abcdefghij', 'klmnopqrst', 'uv']", List: true, Lit: true, Payload: true},
+	{Name: "strkeyed", Pre: "$t = ['abcdefghij', 'kl']; $t['k0'] = 'klmnopqrst';", Expr: "$t", Payload: true},
+	{Name: "strkv", Expr: "['k0' => 'abcdefghij', 'b' => 'kl']", KV: true, Lit: true, Payload: true},
+	{Name: "strnest", Expr: "[['abcdefghij', 'kl'], 'mn', ['op']]", List: true, Lit: true, Payload: true},
+	{Name: "mixlist", Expr: "['abcdefghij', 2.5, true, 7]", List: true, Lit: true, Payload: true},
 }
 
 // ------------------------------------------------------------ mutations (flat: they write the array the name holds)
@@ -50,6 +59,16 @@ type xMut struct {
 	AV   bool   // applicable to an ArrayValue
 	Func bool   // by-reference array_* function: the argument must be a variable or a property
 	Kind string // store | unset | method | func — the runtime path of the write
+	// compound assignments and in-place built-ins on scalar elements: applicable to exactly these shapes
+	Shapes map[string]bool
+}
+
+func shapeSet(names ...string) map[string]bool {
+	m := map[string]bool{}
+	for _, n := range names {
+		m[n] = true
+	}
+	return m
 }
 
 var xMuts = []xMut{
@@ -70,11 +89,25 @@ var xMuts = []xMut{
 	{Name: "array_pop", Stmt: "array_pop(%s);", AV: true, Func: true, Kind: "func"},
 	{Name: "array_shift", Stmt: "array_shift(%s);", AV: true, Func: true, Kind: "func"},
 	{Name: "sortf", Stmt: "sort(%s);", AV: true, Func: true, Kind: "func"},
+	// --- writes that compute the new element from the old one (the old value object must stay as it is)
+	{Name: "catIdx", Stmt: "%s[0] .= 'XY';", Kind: "store", Shapes: shapeSet("list", "keyed", "strlist", "strkeyed", "mixlist")},
+	{Name: "catKey", Stmt: "%s['k0'] .= 'XY';", Kind: "store", Shapes: shapeSet("keyed", "kv", "strkeyed", "strkv")},
+	{Name: "catNested", Stmt: "%s[0][0] .= 'XY';", Kind: "store", Shapes: shapeSet("nest", "strnest")},
+	{Name: "mulIdx", Stmt: "%s[1] *= 2;", Kind: "store", Shapes: shapeSet("list", "keyed")},
+	{Name: "storeStr", Stmt: "%s[0] = 'new';", Kind: "store", Shapes: shapeSet("strlist", "strkeyed", "strnest", "mixlist")},
+	{Name: "walkRef", Stmt: "array_walk(%s, function(&$v, $k) { $v = $v . 'W'; });", Func: true, Kind: "func", Shapes: shapeSet("list", "strlist", "mixlist")},
+	{Name: "usortf", Stmt: "usort(%s, function($x, $y) { return 0; });", Func: true, Kind: "func", Shapes: shapeSet("keyed", "strkeyed")},
 }
 
 func (m xMut) on(name string) string { return fmt.Sprintf(m.Stmt, name) }
 
 func (m xMut) applies(s xShape) bool {
+	if m.Shapes != nil {
+		return m.Shapes[s.Name]
+	}
+	if s.Payload {
+		return false
+	}
 	if s.KV {
 		return m.KV
 	}
@@ -594,7 +627,7 @@ func (r *runner) xEnumerate(full bool) int {
 	quickMuts := map[string]bool{"append": true, "storeIdx": true, "pop": true, "array_push": true}
 	repProd := map[string]bool{"getter": true, "staticLocal": true}
 	repSink := map[string]bool{"func": true, "ctor": true, "temp": true}
-	scopeMuts := map[string]bool{"append": true, "storeIdx": true, "storeKey": true, "unset": true, "pop": true, "sort": true, "array_push": true}
+	scopeMuts := map[string]bool{"catIdx": true, "append": true, "storeIdx": true, "storeKey": true, "unset": true, "pop": true, "sort": true, "array_push": true}
 	for _, scope := range xScopes {
 		for _, s := range xShapes {
 			for _, ow := range xOwners {
@@ -608,7 +641,8 @@ func (r *runner) xEnumerate(full bool) int {
 									continue
 								}
 							} else {
-								pair := (s.Name == "list" && quickMuts[m.Name]) || (s.Name == "kv" && m.Name == "storeKey")
+								pair := (s.Name == "list" && quickMuts[m.Name]) || (s.Name == "kv" && m.Name == "storeKey") ||
+									(s.Name == "strlist" && m.Name == "catIdx")
 								if scope != "top" || ow.Fresh {
 									// (a fresh interpreter per case is slow: one mutation)
 									if !(s.Name == "list" && m.Name == "append") {
